@@ -268,6 +268,7 @@ func originsCase(e *ev.Env, c *ev.Case) {
 	cfg.trusted, cfg.trustedCfg = genTrusted(r)
 	cfg.customMethods = r.Chance(1, 3)
 	cfg.errHandler = r.PickW(5, 2, 3, 2)
+	genCookieOpts(r, cfg)
 	hs := &histSpec{cfg: cfg, nClients: 1, steps: mkSteps("fetch")}
 	n := r.Range(2, 5)
 	for i := 0; i < n; i++ {
@@ -663,6 +664,37 @@ func corpus(e *ev.Env) {
 							_, nt := runHistory(e, c, hs, nil, "")
 							noteHistory(e, hs, nt)
 						}
+					}
+				}
+			}
+		}
+	})
+	// Cookie options (session-only, Secure, HttpOnly, SameSite, Domain, Path) change the Set-Cookie line,
+	// not the life of the server-side token: expiry, extension, consumption and deletion as always.
+	e.Corpus("cookie-options", func(c *ev.Case) {
+		type co struct {
+			so, sec, ho   bool
+			ss, dom, path string
+		}
+		opts := []co{{so: true}, {sec: true, ho: true, ss: "Strict"}, {so: true, sec: true, ho: true, ss: "None", dom: "example.com", path: "/"},
+			{ss: "Lax", path: "/app"}, {so: true, ss: "Strict", dom: "example.com"}}
+		shapesCO := [][]string{
+			{"fetch", "advance-near-end", "own", "advance-past", "own", "fetch", "own"},
+			{"fetch", "advance-near-end", "fetch", "advance-past", "stale", "replay-previous"},
+			{"fetch", "own", "replay-previous", "delete-token-post", "stale"},
+		}
+		for _, o := range opts {
+			for _, sh := range shapesCO {
+				for _, be := range []string{bVstore, bSessStore, bSessMW, bMemory} {
+					for _, su := range []bool{false, true} {
+						if be == bMemory && (su || !o.so) {
+							continue // each default memory store leaks a ticker goroutine: keep few
+						}
+						cfg := fixedCfg(be, "header", su)
+						cfg.ckSessionOnly, cfg.ckSecure, cfg.ckHTTPOnly, cfg.ckSameSite, cfg.ckDomain, cfg.ckPath = o.so, o.sec, o.ho, o.ss, o.dom, o.path
+						hs := &histSpec{cfg: cfg, nClients: 1, steps: mkSteps(sh...)}
+						_, nt := runHistory(e, c, hs, nil, "")
+						noteHistory(e, hs, nt)
 					}
 				}
 			}
